@@ -255,15 +255,8 @@ impl<'a> FnCx<'a> {
                     Ty::Res(_, k) => k.clone(),
                     _ => return self.no(line, "`?` in a function that does not return `Result` (`?` on `Option` is not supported)"),
                 };
-                let inner_want = match want {
-                    Some(w) => Ty::Res(Box::new(w.clone()), key.clone()),
-                    None => {
-                        let v = self.fresh_any();
-                        Ty::Res(Box::new(v), key.clone())
-                    }
-                };
-                // a fresh non-integer "any" cannot be expressed; infer without expectation instead
-                let (ir, ty) = if want.is_some() { self.expr(&t.expr, Some(&inner_want))? } else { self.expr(&t.expr, None)? };
+                let inner_want = want.map(|w| Ty::Res(Box::new(w.clone()), key.clone()));
+                let (ir, ty) = self.expr(&t.expr, inner_want.as_ref())?;
                 match self.resolve(&ty) {
                     Ty::Res(inner, k) => {
                         if k != key {
@@ -296,11 +289,6 @@ impl<'a> FnCx<'a> {
             syn::Expr::Macro(m) => self.macro_expr(line, &m.mac),
             other => self.no(line, format!("unsupported expression `{}` ({})", short(e), kind(other))),
         }
-    }
-
-    /// placeholder used only to build an expectation shape; never unified
-    fn fresh_any(&mut self) -> Ty {
-        self.fresh_var()
     }
 
     fn path_expr(&mut self, line: usize, p: &syn::Path, _want: Option<&Ty>) -> R<(E, Ty)> {
